@@ -989,7 +989,7 @@ def c12(tr, cx):
             cls, kind = nk(spec, nid)
             if kind != 'schedule' or cls != 'Node': continue
             sv = spec['nodes'][nid - 1]['servers']
-            got = [float(e[1]) for e in tr.events if e[0] == 'shift' and e[2] == nid]
+            got = [float(sn['t']) for sn in tr.snaps if sn['evnode'] == nid and sn['evtype'] == 'shift_change']   # the engine's own event type, not a method hook
             exp = [sv['offset']] if sv['offset'] > 0 else []
             m = 0
             while len(exp) < 5000:
